@@ -49,6 +49,11 @@ pub trait Inspector {
     fn lock_addrs(&self) -> (usize, usize) {
         (0, 0)
     }
+    /// True when neither the queue lock nor the store lock (async: the shards of the given
+    /// keys) is currently held by anybody.
+    fn locks_free(&self, _probe_keys: &[String]) -> bool {
+        true
+    }
 }
 
 type Est<R> = Option<fn(&R) -> usize>;
@@ -130,6 +135,10 @@ impl<R: Debug + 'static> Inspector for GlobalInspector<R> {
             )
         }
     }
+
+    fn locks_free(&self, _probe_keys: &[String]) -> bool {
+        self.order.try_lock().is_some() && self.map.try_write().is_some()
+    }
 }
 
 // ---------------------------------------------------------------------------------------------
@@ -181,6 +190,15 @@ impl<R: Debug + 'static> Inspector for AsyncInspector<R> {
 
     fn lock_addrs(&self) -> (usize, usize) {
         unsafe { (0, self.order.raw() as *const _ as *const u8 as usize) }
+    }
+
+    fn locks_free(&self, probe_keys: &[String]) -> bool {
+        if self.order.try_lock().is_none() {
+            return false;
+        }
+        probe_keys
+            .iter()
+            .all(|k| !self.cache.try_get_mut(k.as_str()).is_locked())
     }
 }
 
